@@ -24,7 +24,7 @@
     by the correspondence: goodness of fit against an independent reference). *)
 From Coq Require Import Reals QArith List ZArith.
 From Coquelicot Require Import Coquelicot.
-From GV Require Import Model.Dists Lemmas.DistLemmas Lemmas.DistCalculus.
+From GV Require Import Model.Dists Model.DistTable Lemmas.DistLemmas Lemmas.DistCalculus.
 Import ListNotations.
 Open Scope R_scope.
 
@@ -113,6 +113,17 @@ Proof.
   intros k Hk Hx. apply weibull_pdf_cdf; assumption.
 Qed.
 Print Assumptions C13_cdf_derivatives_partial.
+
+(** source-level tie: a table regenerated from distributions.py (constructor and parameter
+    passing of every wrapper) that equals the expected one denotes exactly the documented call
+    signatures the behavioural correspondence is run against *)
+Theorem C13_wrappers_denote_documented_signatures :
+  forall tbl, table_eqb tbl expected_code_table = true ->
+              doc_consistent tbl = true /\ names_covered expected_code_table = true.
+Proof.
+  intros tbl H. rewrite (table_eqb_eq _ _ H). exact expected_table_consistent.
+Qed.
+Print Assumptions C13_wrappers_denote_documented_signatures.
 
 (** sample_shape and vectorisation only prepend dimensions to the shape of a
     plain draw: lanes ++ sample_shape ++ (batch ++ event) *)
